@@ -143,6 +143,17 @@ inductive SizeOp where
   | eq | lt | gt | unknown
   deriving Repr, DecidableEq, Inhabited
 
+/-- the spellings `switch a.Size.Op` accepts (`Validate` admits exactly these; anything else is the default arm) -/
+def sizeOpOfString (s : String) : SizeOp :=
+  if s = "eq" ∨ s = "=" then .eq else if s = "lt" ∨ s = "<" then .lt else if s = "gt" ∨ s = ">" then .gt else .unknown
+
+/-- does the `size` assertion fail? `none` = the default arm ("unknown op" error) -/
+def sizeFails : SizeOp → Nat → Nat → Option Bool
+  | .eq, val, len => some (decide (val ≠ len))
+  | .lt, val, len => some (decide (val < len))
+  | .gt, val, len => some (decide (val > len))
+  | .unknown, _, _ => none
+
 structure AssertCfg where
   headers : List (String × List Char) := []
   body : List String := []
@@ -191,10 +202,10 @@ def assertHttp (a : AssertCfg) (r : Resp) : PostRes :=
   else if a.statusCode ≠ 0 ∧ a.statusCode ≠ r.status then .err
   else match a.size with
     | none => .ok
-    | some (val, .eq) => if val ≠ len then .err else .ok
-    | some (val, .lt) => if val < len then .err else .ok
-    | some (val, .gt) => if val > len then .err else .ok
-    | some (_, .unknown) => .err
+    | some (val, op) =>
+      match sizeFails op val len with
+      | some false => .ok
+      | _ => .err                                -- assertion failed, or "unknown op"
 
 /-- `VarJsonpathPostprocessor.Process` -/
 def varJsonpath (paths : List String) (r : Resp) : PostRes :=
@@ -316,25 +327,53 @@ def grpcStepOutcome (c : GrpcCallCfg) (r : GrpcReply) : GrpcStepOutcome :=
   | .badPayload => .badPayload
   | .callable => .invoked r.code (runGrpcAsserts (grpcToHttp r.code) (r.code != 0) r.payloadHas c.asserts)
 
+/-! ## `panicOnHTTP1Client` (the client of the http2 gun) -/
+
+/-- `http2.NextProtoTLS` -/
+def nextProtoTLS : String := "h2"
+
+/-- `notHTTP2PanicMsg` -/
+def notHTTP2PanicMsg : String := "Non HTTP/2 connection established. Seems that target doesn't support HTTP/2."
+
+/-- What `panicOnHTTP1Client.Do` inspects besides the exchange itself. Both fields are decided by the peer. -/
+structure H2Facts where
+  /-- the wrapped `Do` failed with a `*net.OpError{Op: "remote error"}` whose text contains "no application protocol"
+  (the peer's TLS alert 120: it offers no `h2`) -/
+  alpnAlert : Bool := false
+  /-- `res.TLS` of a received response: `none` = not a TLS connection, else (`NegotiatedProtocol`,
+  `NegotiatedProtocolIsMutual`) -/
+  tls : Option (String × Bool) := some ("h2", true)
+  deriving Repr, DecidableEq, Inhabited
+
+/-- `checkHTTP2(state) == nil` -/
+def checkHTTP2 : Option (String × Bool) → Bool
+  | none => false
+  | some (p, isMutual) => if p ≠ nextProtoTLS then false else isMutual
+
+/-- `panicOnHTTP1Client.Do` panics: on an error only for the ALPN alert, on a response iff `checkHTTP2` fails -/
+def h2Panics (f : H2Facts) : Reply → Bool
+  | .noResponse _ => f.alpnAlert
+  | _ => !checkHTTP2 f.tls
+
 /-- one shot of any gun kind against a target -/
 inductive GunShot where
-  /-- http / connect gun (`h2 = false`) or http2 gun (`h2 = true`). `peerLacksH2`: the TLS handshake reached a peer
-  that does not negotiate HTTP/2 (ALPN alert, or a connection without `h2`); false when nothing was negotiated
-  (refused, silent) or the peer speaks HTTP/2. -/
-  | http (h2 peerLacksH2 : Bool) (cfg : AutoTagCfg) (ammoTag : String) (id : Nat) (path : String) (reply : Reply)
+  /-- http / connect gun (`h2 = false`) or http2 gun (`h2 = true`, its client is `panicOnHTTP1Client`) -/
+  | http (h2 : Bool) (facts : H2Facts) (cfg : AutoTagCfg) (ammoTag : String) (id : Nat) (path : String) (reply : Reply)
   | scenario (scn : String) (steps : List (StepCfg × Reply))
   | grpc (ammoTag : String) (callable : GrpcOutcome)
   | grpcScenario (scn : String) (calls : List (GrpcCallCfg × GrpcReply))
 
 /-- the only condition documented as fatal: the http2 gun meets a target without HTTP/2
-(`panicOnHTTP1Client`: "Will panic and cancel shooting whet target doesn't support HTTP/2") -/
+(`panicOnHTTP1Client`: "Will panic and cancel shooting whet target doesn't support HTTP/2"): the peer answered the
+ALPN offer `h2` with the alert "no application protocol", or a response arrived over a connection that is not TLS
+with mutually negotiated `h2` -/
 def GunShot.documentedFatal : GunShot → Bool
-  | .http h2 peerLacksH2 _ _ _ _ _ => h2 && peerLacksH2
+  | .http h2 facts _ _ _ _ reply => h2 && h2Panics facts reply
   | _ => false
 
 def GunShot.run : GunShot → ShotResult
-  | .http h2 peerLacksH2 cfg tag id path reply =>
-    let outcome : HttpOutcome := if h2 && peerLacksH2 then .doPanic else reply.httpOutcome
+  | .http h2 facts cfg tag id path reply =>
+    let outcome : HttpOutcome := if h2 && h2Panics facts reply then .doPanic else reply.httpOutcome
     shootHttp cfg { ammoTag := tag, id := id, path := path, outcome := outcome }
   | .scenario scn steps =>
     shootScenario scn (steps.map fun (c, r) => { name := c.name, outcome := stepOutcome c r })
@@ -366,5 +405,38 @@ def instanceRun : List ShotResult → InstanceRun
     else
       let r := instanceRun rest
       { samples := s.reports ++ r.samples, shotsTaken := r.shotsTaken + 1, result := r.result }
+
+/-! ## the pool: any number of instances share the ammo -/
+
+/-- `instancePool` / `Engine.Run`: the pool fails as soon as one instance returns an error; it finishes when all
+instances finished -/
+def poolResult (insts : List (List ShotResult)) : RunResult :=
+  if insts.any (fun shots => (instanceRun shots).result == .poolFailed) then .poolFailed else .finished
+
+/-- all samples the aggregator received from a pool whose instances ran to the end (instance by instance; the real
+arrival order is an interleaving of these lists) -/
+def poolSamples (insts : List (List ShotResult)) : List Sample :=
+  (insts.map fun shots => (instanceRun shots).samples).flatten
+
+/-- ammo taken by all instances -/
+def poolShots (insts : List (List ShotResult)) : Nat :=
+  (insts.map fun shots => (instanceRun shots).shotsTaken).sum
+
+/-! ## what the sample of a step must carry -/
+
+/-- the sample the http scenario gun reports for a step that the loop entered -/
+def sampleOfStep (scn : String) (c : StepCfg) (r : Reply) : Sample :=
+  match stepOutcome c r with
+  | .received st .ok => okSample scn c.name st
+  | _ => errSample scn c.name
+
+/-- the step ran to its end: a complete response arrived and every postprocessor / assertion accepted it -/
+def stepCompleted (c : StepCfg) : Reply → Bool
+  | .full r => !c.prepFails && runPPs r c.pps == .ok
+  | _ => false
+
+/-- the sample the gRPC scenario gun reports for a call that the loop entered -/
+def sampleOfCall (scn : String) (c : GrpcCallCfg) (r : GrpcReply) : Sample :=
+  { tags := stepTag scn c.tag, id := 0, proto := grpcStepProto (grpcStepOutcome c r), net := 0 }
 
 end Pandora.Model.C19
